@@ -52,14 +52,24 @@ pub fn vfs_create_dir_all<P: AsRef<Path>>(p: P, Tracked(w): Tracked<&mut World>)
 // meta::set_local_mtime (open without create/truncate + set_modified): changes no byte of any file; on success the file's
 // whole-second mtime is max(secs, 0) - what meta::mtime_secs will read back (C14)
 pub open spec fn clamp0(t: int) -> int { if t >= 0 { t } else { 0 } }
+// std::fs::File::options().write(true).open(path)?.set_modified(t): opens WITHOUT create/truncate, stamps the time (A)
+#[verifier::external_type_specification] #[verifier::external_body] pub struct ExSystemTime(std::time::SystemTime);
+pub uninterp spec fn time_secs(t: std::time::SystemTime) -> int;      // whole seconds since the epoch
 #[verifier::external_body]
-pub fn set_local_mtime(path: &Path, secs: i64, Tracked(w): Tracked<&mut World>) -> (r: std::io::Result<()>)
+pub fn vfs_set_modified(path: &Path, t: std::time::SystemTime, Tracked(w): Tracked<&mut World>) -> (r: std::io::Result<()>)
     ensures final(w).log == old(w).log.push(Eff::Touch(pv(path))),
         r is Ok ==> old(w).files.contains_key(pv(path)) && final(w).files == old(w).files.insert(pv(path),
-            FileS { bytes: old(w).files[pv(path)].bytes, whole: old(w).files[pv(path)].whole, mtime: clamp0(secs as int) }),
+            FileS { bytes: old(w).files[pv(path)].bytes, whole: old(w).files[pv(path)].whole, mtime: time_secs(t) }),
         r is Err ==> final(w).files == old(w).files,
         (io_ok() && old(w).files.contains_key(pv(path))) ==> r is Ok,
 { unimplemented!() }
+pub assume_specification<T, E> [std::result::Result::<T, E>::unwrap_or] (r: std::result::Result<T, E>, d: T) -> (o: T)
+    where E: std::marker::Destruct, T: std::marker::Destruct,
+    ensures o == (match r { Ok(v) => v, Err(_) => d });
+// R5 shims for the time arithmetic of meta::set_local_mtime
+#[verifier::external_body] pub fn epoch_plus_secs(n: u64) -> (r: std::time::SystemTime) ensures time_secs(r) == n { unimplemented!() }      // UNIX_EPOCH + Duration::from_secs(n)
+#[verifier::external_body] pub fn i64_max(a: i64, b: i64) -> (r: i64) ensures r == (if a >= b { a } else { b }) { unimplemented!() }              // a.max(b)
+#[verifier::external_body] pub fn u64_try_from_i64(x: i64) -> (r: Result<u64, ()>) ensures r is Ok <==> x >= 0, r is Ok ==> r->Ok_0 == x { unimplemented!() }
 
 #[verifier::external_body]
 pub fn vfs_exists(p: &Path, Tracked(w): Tracked<&World>) -> (r: bool) ensures r == w.files.contains_key(pv(p)) { unimplemented!() }
